@@ -73,7 +73,7 @@ pub enum B {
 #[derive(Clone, Copy, Debug, PartialEq, Eq)]
 pub struct Step {
     pub k: K,
-    /// bit 0 controls, bit 1 timeout (10 ms), bit 2 search options
+    /// bit 0 controls, bit 1 timeout (10 ms), bit 2 search options, bit 3 controls given as an empty list
     pub mods: u8,
     pub b: B,
 }
@@ -133,6 +133,9 @@ async fn run_async(ldap: &mut ldap3::Ldap, seq: &[Step], out: &mut Vec<String>) 
     for (i, s) in seq.iter().enumerate() {
         if s.mods & 1 != 0 {
             ldap.with_controls(ctl(i));
+        }
+        if s.mods & 8 != 0 {
+            ldap.with_controls(Vec::<RawControl>::new());
         }
         if s.mods & 2 != 0 {
             ldap.with_timeout(Duration::from_millis(10));
@@ -199,6 +202,9 @@ fn run_sync(conn: &mut LdapConn, seq: &[Step], now: &dyn Fn() -> u128, out: &mut
     for (i, s) in seq.iter().enumerate() {
         if s.mods & 1 != 0 {
             conn.with_controls(ctl(i));
+        }
+        if s.mods & 8 != 0 {
+            conn.with_controls(Vec::<RawControl>::new());
         }
         if s.mods & 2 != 0 {
             conn.with_timeout(Duration::from_millis(10));
@@ -319,8 +325,11 @@ fn valid(s: &Step) -> bool {
 fn steps(tier: Tier) -> Vec<Step> {
     let mut v = vec![];
     for k in KINDS {
-        for mods in 0..8u8 {
+        for mods in [0u8, 1, 2, 3, 4, 5, 6, 7, 8, 14] {
             for b in [B::Ok, B::NoSuchObject, B::Silent, B::Disconnect] {
+                if mods >= 8 && b != B::Ok {
+                    continue;
+                }
                 let s = Step { k, mods, b };
                 if !valid(&s) {
                     continue;
